@@ -370,7 +370,11 @@ func (r *Rig) goCall(c *RigClient, kind, tok string, plan Plan, preCancelled boo
 		case "retry":
 			p.Res, p.Err = c.C.Retry(ctx, tok, plan)
 		case "notify":
-			p.Err = c.C.Notify(ctx, tok, plan)
+			if plan.ViaSub {
+				p.Err = c.C.NotifySub(ctx, tok, plan)
+			} else {
+				p.Err = c.C.Notify(ctx, tok, plan)
+			}
 		case "noctx":
 			p.Res, p.Err = c.C.NoCtx(tok, plan)
 		case "sub":
